@@ -81,7 +81,6 @@ def build_events():
     cand_other = U.code_cell(rewrite(src, 'estimate', (0, 2, 6, 8)), outputs=[U.error()], ec=2)
     amb1 = U.notebook([cand_other, cand_same], 4, {})
     amb2 = U.notebook([cand_same, cand_other], 4, {})
-    diffs.append(('d12:alignment decided by outputs (look-alike first)', base_amb, amb1))
     diffs.append(('d13:alignment decided by outputs (look-alike last)', base_amb, amb2))
     merges = [
         ('m0:S45 same-line conflict', S['S45'], d1(S['S45'], 'src@0:repl1:a'), d1(S['S45'], 'src@0:repl1:b'), ['inline', None, None, True]),
@@ -116,6 +115,10 @@ def build_events():
     for name, m in ignores:
         events.append({'kind': 'ignores', 'name': name, 'mapping': m})
     events.append({'kind': 'reset', 'name': 'r:reset_notebook_differ'})
+    # the notebook server extension configures the ignores once, when it is loaded (real _load_jupyter_server_extension, stub server app)
+    events.append({'kind': 'extload', 'name': 'x0:server extension loaded, no configuration', 'config': {}})
+    events.append({'kind': 'extload', 'name': 'x1:server extension loaded, details off + outputs ignored',
+                   'config': {'Extension': {'details': False, 'Ignore': {'/cells/*/outputs': True}}}})
     return events
 
 
@@ -138,6 +141,18 @@ def model_step(state, ev):
         }
     elif ev['kind'] == 'ignores':
         m = ev['mapping']
+    elif ev['kind'] == 'extload':
+        ext = ev['config'].get('Extension', {})
+        flags = {k: ext[k] for k in ('sources', 'outputs', 'attachments', 'metadata', 'id', 'details') if ext.get(k) is not None}
+        if flags:
+            # process_exclusive_ignorables: unspecified categories default to the opposite of the given ones
+            default = not list(flags.values())[0]
+            full = {k: flags.get(k, default) for k in ('sources', 'outputs', 'attachments', 'metadata', 'id', 'details')}
+            full['identifier'] = full.pop('id')
+            st = model_step(st, {'kind': 'targets', 'flags': full})
+        if ext.get('Ignore'):
+            st = model_step(st, {'kind': 'ignores', 'mapping': ext['Ignore']})
+        return st
     else:
         return st
     for p, v in m.items():
@@ -198,6 +213,37 @@ def execute(ev):
         return 'CFG'
     if k == 'reset':
         nbs.reset_notebook_differ()
+        return 'CFG'
+    if k == 'extload':
+        import tempfile
+        import shutil
+        stubs = os.path.join(os.path.dirname(os.path.dirname(os.path.abspath(__file__))), 'stubs')
+        if stubs not in sys.path:
+            sys.path.insert(0, stubs)
+        import jinja2
+        from nbdime.webapp import nb_server_extension as ext
+
+        class WebApp(object):
+            def __init__(self):
+                self.settings = {'jinja2_env': jinja2.Environment(loader=jinja2.FileSystemLoader([])), 'static_path': [], 'base_url': '/'}
+
+            def add_handlers(self, pattern, handlers):
+                self.handlers = handlers
+
+        class App(object):
+            web_app = WebApp()
+            log = None
+        d = tempfile.mkdtemp(prefix='c12x-', dir=isolate.scratch_root())
+        cwd = os.getcwd()
+        try:
+            if ev['config']:
+                with open(os.path.join(d, 'nbdime_config.json'), 'w') as f:
+                    json.dump(ev['config'], f)
+            os.chdir(d)
+            ext._load_jupyter_server_extension(App())
+        finally:
+            os.chdir(cwd)
+            shutil.rmtree(d, ignore_errors=True)
         return 'CFG'
     raise ValueError(k)
 
@@ -383,7 +429,7 @@ def _shard(sh, ctx):
 
 
 def reachable_states(events, depth):
-    cfg = [e for e in events if e['kind'] in ('targets', 'ignores', 'reset')]
+    cfg = [e for e in events if e['kind'] in ('targets', 'ignores', 'reset', 'extload')]
     states = {state_key({}): {}}
     frontier = [{}]
     for _ in range(depth):
